@@ -179,3 +179,22 @@ def scalars_of(n, acc=None):
             scalars_of(k, acc)
             scalars_of(v, acc)
     return acc
+
+
+def scalars_of_graph(n, acc=None, seen=None):
+    """Like scalars_of, but safe on node graphs with sharing and cycles."""
+    if acc is None:
+        acc, seen = set(), set()
+    if id(n) in seen:
+        return acc
+    seen.add(id(n))
+    if isinstance(n, yaml.ScalarNode):
+        acc.add((n.tag, n.value))
+    elif isinstance(n, yaml.SequenceNode):
+        for x in n.value:
+            scalars_of_graph(x, acc, seen)
+    elif isinstance(n, yaml.MappingNode):
+        for k, v in n.value:
+            scalars_of_graph(k, acc, seen)
+            scalars_of_graph(v, acc, seen)
+    return acc
